@@ -371,6 +371,7 @@ def stoKey : Sto → List Int
   | .ptr i x => [3, i, (x.getD 0 : Nat), if x.isSome then 1 else 0]
   | .unlock => [4]
   | .baseI v e => [5, v, e]
+  | .shift lo hi off => [6, lo, hi, off]
 
 def optKey (x : Option Elem) : List Int := [(x.getD 0 : Nat), if x.isSome then 1 else 0]
 
@@ -381,6 +382,9 @@ def opcKey : OPc → List Int
   | .po5b t r => [14, t] ++ optKey r | .po6 r => 15 :: optKey r | .po7 => [16] | .po8 => [17] | .po9 => [18]
   | .stuckL => [19] | .ptl e => [20, e] | .pt1 e => [21, e] | .pt6 e => [22, e] | .pt7 e b => [23, e, b]
   | .pt8 e b => [24, e, b] | .pt9 => [25]
+  | .pul e => [26, e] | .pub e => [27, e] | .pum e off => [28, e, off] | .pus e off => [29, e, off]
+  | .puv e off => [30, e, off] | .pux e t => [31, e, t] | .pt2 e => [32, e] | .pt3 e off => [33, e, off]
+  | .pt4 e off => [34, e, off] | .pt5 e off => [35, e, off]
 
 def tpcKey : TPc → List Int
   | .idle => [0] | .tq0 => [1] | .tq1 t => [2, t] | .tkl => [3] | .tk1 => [4] | .tkf b => [5, b]
